@@ -308,7 +308,7 @@ SPACES = dict(
             dict(before='let start_tok', kind='ghost', text='let ghost mut is_space = false;'),
             dict(before='let start_tok', text='lemma_sum_ws_mono(copy@, 0, c as int);'),
             dict(before='loop', text='is_space = true;'),
-            dict(before='if start_tok', text='if merged { lemma_tiles_bnd(copy@, n, c + 1); lemma_tiles_bnd(copy@, n, c + 2); } else { lemma_tiles_bnd(copy@, n, c as int); }'),
+            dict(after='let child_tok', text='if merged { lemma_tiles_bnd(copy@, n, c + 1); lemma_tiles_bnd(copy@, n, c + 2); } else { lemma_tiles_bnd(copy@, n, c as int); }'),
             dict(before='*start_count += n', text='lemma_sum_ws_mono(copy@, cursor as int + 1, cursor as int + 2); lemma_sum_ws_mono(copy@, 0, c as int);'),
             dict(after='remove_these.push_back', text='merged = true;'),
             dict(before='self.tokens.remove_indices', text='assert(imin(cursor as int, len0 as int) == len0);'),
@@ -477,8 +477,8 @@ DOTTED = dict(
             dict(before='if is_initialism_chunk', kind='ghost', text='let ghost st0 = initialism_start;'),
             dict(after='cursor += 1', nth=1, text='lemma_dot_chunk(orig, n, cur0, rm0, st0, c0 as int, to_remove@);'),
             dict(after='initialism_start = None', text='lemma_dot_close(orig, n, cur0, rm0, st0, c0 as int, self.tokens@); lemma_dot_step(orig, n, self.tokens@, rm0, c0 as int);'),
-            dict(before='if let Some(start)', nth=2, kind='ghost', text='let ghost cur1 = self.tokens@;'),
-            dict(before='if let Some(start)', nth=2, kind='ghost', text='let ghost st1 = initialism_start;'),
+            dict(at='after_loop', loop=1, kind='ghost', text='let ghost cur1 = self.tokens@;'),
+            dict(at='after_loop', loop=1, kind='ghost', text='let ghost st1 = initialism_start;'),
             dict(before='self.tokens.remove_indices', text='lemma_dot_close(orig, n, cur1, to_remove@, st1, cursor as int, self.tokens@); if cursor == orig.len() { lemma_dot_step(orig, n, self.tokens@, to_remove@, cursor as int); }'),
             ],
     loops={1: dict(
